@@ -5,3 +5,4 @@ import Model.Group
 import Model.LoD
 import Model.Obsolete
 import Model.FrameState
+import Model.Bind
